@@ -9,7 +9,7 @@ from __future__ import annotations
 import jax.tree_util as real_jtu
 import z3
 
-from ..sym import Assumed, EngineLimit, Sym, _lift, engine, fresh, ite
+from ..sym import documented, Assumed, EngineLimit, Sym, _lift, engine, fresh, ite
 from ..tensor import Tensor, dim_eq, lane
 from . import jtu as jtu_stub
 from .vmap import _stack
@@ -41,12 +41,14 @@ def scan(f, init, xs=None, length=None, reverse=False, unroll=1, **kw):
     jtu_stub.tree_map(collect, xs)
     T = length if length is not None else (sizes[0] if sizes else None)
     if T is None:
-        raise ValueError("scan got no length and no xs")
+        raise documented(ValueError("scan got no length and no xs"))
     for s in sizes:
         if not dim_eq(s, T):
             if isinstance(s, int) and isinstance(T, int):
-                raise ValueError("scan got `length` argument of %s which disagrees with leading axis sizes %s" % (T, s))
+                raise documented(ValueError("scan got `length` argument of %s which disagrees with leading axis sizes %s" % (T, s)))
             raise EngineLimit("cannot decide scan length consistency %s / %s" % (s, T))
+    if isinstance(T, Sym):
+        T = T.e
     Tt = z3.IntVal(T) if isinstance(T, int) else T
     t = fresh("step", z3.IntSort())
     eng.assume(z3.And(t >= 0, t < Tt))
@@ -63,7 +65,7 @@ def scan(f, init, xs=None, length=None, reverse=False, unroll=1, **kw):
         lanes.pop()
     new_leaves, treedef2 = real_jtu.tree_flatten(new_carry, is_leaf=lambda x: isinstance(x, (Sym, Tensor)))
     if treedef2 != treedef:
-        raise TypeError("scan body function carry input and carry output must have the same pytree structure")
+        raise documented(TypeError("scan body function carry input and carry output must have the same pytree structure"))
     eng.extra.setdefault("scans", []).append(
         {"T": Tt, "t": t, "carry_at": lambda tt: real_jtu.tree_unflatten(treedef, [c(tt) for c in cfs]),
          "init": init, "new_carry": new_carry, "y": y, "x_t": x_t, "carry_t": carry_t, "reverse": reverse}
